@@ -23,4 +23,4 @@ INIT MCInit
 NEXT MCNext
 CHECK_DEADLOCK FALSE
 VIEW View
-INVARIANTS C02_MergeOrdered C02_ApplyOrdered C02_ApplyAfterPredecessors C02_ApplyOnlyMerged
+INVARIANTS C02_MergeOrdered C02_ApplyOrdered C02_ApplyAfterPredecessors C02_ApplyOnlyMerged Cover
